@@ -13,7 +13,8 @@ Driver for C16.  Case kinds (items separated by ` ; `, the first item is the hea
 * `be <backend> <flavor> <no|re|ex> <none|pre|req<k>|post> <reps> ; <batch script> ; …` — one flush of an
   HTTP backend against a scripted server; a batch script is a word over `2 4 5 9 H S` (status 204,
   400, 503, 429, hijack-and-close, slow 204), the last letter repeats.  Output `cb=<n> err=<n|e|*>`.
-* `sock <graphite|statsd-tcp|statsd-udp> <up|downup|down-cancel|down-shutdown|precancel>`.
+* `sock <graphite|statsd-tcp|statsd-udp> <up|downup|down-cancel|down-shutdown|precancel|big>` (`big`: one flush
+  that renders to about 1500 relay datagrams, more than the relay's channel of packet buffers holds).
 * `fl <aggregators> <backends> ; a.b ; …` — order in which the fake backends invoke the callbacks of
   the real `MetricFlusher`.  Output `early=<0|1> ret=<0|1>`.
 -/
@@ -217,7 +218,7 @@ def beSpec (c : BeCase) (impl : String) : String :=
 
 def sockModel (scenario : String) : String :=
   match scenario with
-  | "up" | "downup" => "cb=1 err=n"
+  | "up" | "downup" | "big" => "cb=1 err=n"
   | "down-cancel" | "down-shutdown" => "cb=1 err=e"
   | "precancel" => "cb=1 err=*"
   | _ => "BAD_CASE"
